@@ -114,6 +114,15 @@ def run(tier, seed):
                                      'against a DOP853 solution of the two-machine classical model'})
         if bad:
             pack.violation(name, {'bounded': True, 'inputs': bad, 'native_cmd': 'contracts/bounded_smib.py'})
+    from contracts import bounded_events as BEV
+    name = 'C07/andes/routines/tds.py:TDS.run/bounded:every-scheduled-switching-event-acts-once-at-its-time,also-coincident-ones'
+    r = native_guard(pack, name, BEV.run)
+    if r is not None:
+        n, bad = r
+        pack.bounded.append({'function': 'TDS.run with Toggle / Fault / Alter schedules (end to end)', 'runs': n, 'counted_as_proved': False,
+                             'kind': 'bounded native: kundur_full, schedules incl. coincident line trips and irrational event times (shared with C06)'})
+        if bad:
+            pack.violation(name, {'bounded': True, 'inputs': bad, 'native_cmd': 'contracts/bounded_events.py'})
     from contracts import bounded_smallsignal as BL
     name = 'C07/andes/routines/tds.py:TDS.run/bounded:small-displacement-follows-the-linearised-solution'
     r = native_guard(pack, name, lambda: BL.run(tier))
